@@ -144,8 +144,8 @@ def token_shape(rules, name, depth=0):
 CAPACITY = {("i32", 10): 9, ("u32", 10): 9, ("usize", 10): 19, ("i32", 16): 7, ("i32", 8): 10, ("u8", 10): 2, ("u32", 16): 8}
 
 
-@rule("T-TOKEN-DOMAIN", floor=4,
-      text="wherever the text of a grammar token is converted to an integer with `.parse::<T>().unwrap()` or `from_str_radix(..).unwrap()`, every string the token rule can match lies in the conversion's domain: one optional sign at most and a digit count that cannot overflow T")
+@rule("T-TOKEN-DOMAIN", floor=6,
+      text="every conversion of input text to an integer (`.parse::<T>()`, `from_str_radix`) either has its failure handled (ok(), map_err(..)?, a match) or, where the result is unwrapped, converts a grammar token every string of which lies in the conversion's domain: one optional sign at most and a digit count that cannot overflow T")
 def t_token_domain(facts, res, tier):
     rules = facts.grammar_rules()
     def first_child_tokens(rname):
@@ -179,20 +179,52 @@ def t_token_domain(facts, res, tier):
             return False
         go(rules[rname]["expr"])
         return out
+    def want0(n):
+        if n.get("k") == "mcall" and n["method"] == "parse" and n.get("turbofish"):
+            return True
+        if n.get("k") == "call" and expr_text(n["func"]).endswith("from_str_radix"):
+            return True
+        return False
     for fn in facts.fns:
         found = []
         from rules_opt import guards_walk
+        unwrapped = {}
+        _parent = {id(n["recv"]): n for n in walk(fn["body"]) if n.get("k") == "mcall"}
+        for n in walk(fn["body"]):
+            if want0(n):
+                # climb the method chain `conv.ok().and_then(..).unwrap()`: an unwrap anywhere in it
+                cur, hops = n, 0
+                while id(cur) in _parent and hops < 8:
+                    cur = _parent[id(cur)]
+                    hops += 1
+                    if cur["method"] in ("unwrap", "expect", "unwrap_unchecked"):
+                        unwrapped[id(n)] = cur
+                        break
+                    if cur["method"] in ("ok_or", "ok_or_else", "map_err", "unwrap_or", "unwrap_or_default", "unwrap_or_else"):
+                        break
+        consumer = {}
+        for n in walk(fn["body"]):
+            if n.get("k") == "mcall":
+                consumer[id(n["recv"])] = n["method"]
+            elif n.get("k") == "try":
+                consumer[id(n["e"])] = "?"
         def want(n):
-            if n.get("k") == "mcall" and n["method"] in ("unwrap", "expect"):
-                r = n["recv"]
-                if r.get("k") == "mcall" and r["method"] == "parse" and "turbofish" in r:
-                    return True
-                if r.get("k") == "call" and expr_text(r["func"]).endswith("from_str_radix"):
-                    return True
+            if n.get("k") == "mcall" and n["method"] == "parse" and n.get("turbofish"):
+                return True
+            if n.get("k") == "call" and expr_text(n["func"]).endswith("from_str_radix"):
+                return True
             return False
         guards_walk(fn["body"], [], found, want)
-        for node, guards in found:
-            r = node["recv"]
+        nchecked = 0
+        for r, guards in found:
+            node = unwrapped.get(id(r))
+            if node is None:
+                # the conversion's failure is handled (ok(), map_err(..)?, match ..): nothing to prove about the token
+                nchecked += 1
+                ty = re.sub(r"[:<>\s]", "", r["turbofish"]) if r.get("k") == "mcall" else expr_text(r["func"]).split("::")[0]
+                res.inst("T-TOKEN-DOMAIN:%s:handled:%s#%d" % (fn["name"], ty, nchecked), True,
+                         {"function": fn["name"], "conversion": expr_text(r)[:80], "failure_goes_to": consumer.get(id(r), "(value used as a Result)")})
+                continue
             if r.get("k") == "mcall":
                 ty = re.sub(r"[:<>\s]", "", r["turbofish"])
                 radix = 10
